@@ -435,3 +435,23 @@ func init() {
 			Old: "\t\treturn newMarshalErrorBefore(enc, t, nil)", New: "\t\tif t == nil {\n\t\t\tpanic(\"cannot marshal nil type\")\n\t\t}\n\t\treturn newMarshalErrorBefore(enc, t, nil)", Rule: "PANIC-1"},
 	)
 }
+
+func init() {
+	addMutants(
+		// ---- wave-3 strengthening rules
+		Mutant{ID: "numstate-zero-resumes-as-integer", Props: []string{"C01", "C05"}, File: "internal/jsonwire/decode.go", Func: "ConsumeNumberResumable",
+			Old: "\tcase b[n] == '0':\n\t\tn++\n\t\tstate = beforeFractionalDigits", New: "\tcase b[n] == '0':\n\t\tn++\n\t\tstate = withinIntegerDigits", Rule: "NUMSTATE-1"},
+		Mutant{ID: "numconv-float-handrolled", Props: []string{"C03"}, File: "arshal_any.go", Func: "unmarshalValueAny",
+			Old: "\t\t\tfv, err := strconv.ParseFloat(string(val), 64)\n", New: "\t\t\tif len(val) == 1 {\n\t\t\t\treturn float64(val[0] - '0'), nil\n\t\t\t}\n\t\t\tfv, err := strconv.ParseFloat(string(val), 64)\n", Rule: "NUMCONV-1"},
+		Mutant{ID: "ws1-space-after-indent", Props: []string{"C06", "C12"}, File: "jsontext/encode.go", Func: "encoderState.appendWhitespace",
+			Old: "\t\tif delim == ',' && e.Flags.Get(jsonflags.SpaceAfterComma) {\n\t\t\tb = append(b, ' ')\n\t\t}\n\t\tif e.Flags.Get(jsonflags.Multiline) {\n\t\t\tb = e.AppendIndent(b, e.Tokens.NeedIndent(next))\n\t\t}\n", New: "\t\tif e.Flags.Get(jsonflags.Multiline) {\n\t\t\tb = e.AppendIndent(b, e.Tokens.NeedIndent(next))\n\t\t}\n\t\tif delim == ',' && e.Flags.Get(jsonflags.SpaceAfterComma) {\n\t\t\tb = append(b, ' ')\n\t\t}\n", Rule: "WS-1"},
+		Mutant{ID: "pool4-encoder-reset-keeps-bytes", Props: []string{"C07", "C18"}, File: "jsontext/encode.go", Func: "Encoder.Reset",
+			Old: "\tb := e.s.Buf[:0]\n", New: "\tb := e.s.Buf\n", Rule: "POOL-4"},
+		Mutant{ID: "escape1-error-keeps-view", Props: []string{"C18"}, File: "errors.go", Func: "newUnmarshalErrorAfterWithValue",
+			Old: "serr.JSONValue = jsontext.Value(export.Decoder(d).PreviousTokenOrValue()).Clone()", New: "serr.JSONValue = jsontext.Value(export.Decoder(d).PreviousTokenOrValue())", Rule: "ESCAPE-1"},
+		Mutant{ID: "mapcache-linear-search-offset-stuck", Props: []string{"C08", "C01"}, File: "jsontext/state.go", Func: "objectNamespace.insert",
+			Old: "\t\t\tif string(ns.allUnquotedNames[startOffset:endOffset]) == string(name) {\n\t\t\t\treturn false\n\t\t\t}\n\t\t\tstartOffset = endOffset\n", New: "\t\t\tif string(ns.allUnquotedNames[startOffset:endOffset]) == string(name) {\n\t\t\t\treturn false\n\t\t\t}\n", Rule: "MAPCACHE-1"},
+		Mutant{ID: "matrix-appendraw-verbatim-without-needescape", Props: []string{"C01", "C08", "C12"}, File: "jsontext/encode.go", Func: "encoderState.AppendRaw",
+			Old: "isVerbatim := safeASCII || !jsonwire.NeedEscape(b[pos+len(`\"`):len(b)-len(`\"`)])", New: "isVerbatim := safeASCII || len(b) < pos+64", Rule: "MATRIX"},
+	)
+}
